@@ -434,6 +434,10 @@ func (st *State) applyContract(f *Frame, ins ssa.Instruction, c *Contract, calle
 				keeps = append(keeps, keep{addr, T, st.loadH(st.heap, addr, T)})
 			}()
 		}
+		if callee == nil || !strings.Contains(c.File, "/contracts/trusted/") {
+			// module code (or an interface method, which module code may implement)
+			st.havocProbes()
+		}
 		st.havocModset(ms)
 		for _, k := range keeps {
 			st.storeMem(k.addr, k.T, k.v)
@@ -454,12 +458,35 @@ func (st *State) applyContract(f *Frame, ins ssa.Instruction, c *Contract, calle
 	} else if sig.Results().Len() == 1 {
 		env2.result = []Value{res}
 	}
+	// vacuity guard: what the contract promises must be satisfiable here (a contradictory
+	// contract would make every later obligation on this path pass); checked on the
+	// first path that reaches each call site, and only reported when the path itself
+	// (the hypotheses before the contract is assumed) is feasible
+	var vac *VC
+	if len(c.Ensures)+len(c.Assumes) > 0 {
+		if st.res.covSeen == nil {
+			st.res.covSeen = map[string]bool{}
+		}
+		key := "vacuity:after:" + name + "@" + strings.TrimPrefix(ord, "call@")
+		if tag := st.top().inlTag; tag != "" {
+			key = "in:" + tag + key
+		}
+		if !st.res.covSeen[key] {
+			st.res.covSeen[key] = true
+			vac = &VC{Name: key, Func: st.res.Key, Kind: "vacuity", Goal: "true", ExpectSat: true,
+				PreDecls: st.decls.slice(), PreAsserts: st.asserts.slice(), Note: "the contract of " + name + " can be met at " + st.pos(ins)}
+		}
+	}
 	for _, en := range c.Ensures {
 		st.assume(st.evalBool(en.Expr, &env2, en))
 	}
 	for _, en := range c.Assumes {
 		st.assume(st.evalBool(en.Expr, &env2, en))
 		st.res.Assumed["UNVERIFIED clause of "+c.Pkg+"."+c.Name+": "+en.Src] = true
+	}
+	if vac != nil {
+		vac.Decls, vac.Asserts = st.decls.slice(), st.asserts.slice()
+		st.res.VCs = append(st.res.VCs, vac)
 	}
 	return res
 }
@@ -555,6 +582,19 @@ func (st *State) frameCheck(ins ssa.Instruction, addr string, what string) {
 	}
 }
 
+// havocProbes forgets every ghost probe (see GhostVar.Probe).
+func (st *State) havocProbes() {
+	for _, n := range sortedKeys(st.eng.cs.Ghosts) {
+		g := st.eng.cs.Ghosts[n]
+		if !g.Probe {
+			continue
+		}
+		_, s := st.ghostType(g)
+		_ = st.heapGet(st.heap, "ghost_"+n, s)
+		st.heap.m["ghost_"+n] = st.fresh("ghost_"+n, s)
+	}
+}
+
 func (st *State) frameCheckMap(ins ssa.Instruction, m string) {
 	st.frameCheckEntry(ins, modEntry{kind: "map", ref: m}, "frame:"+st.eng.ordinal(st.top().fn, ins, "frame"))
 }
@@ -564,6 +604,11 @@ func (st *State) frameCheckEntry(ins ssa.Instruction, en modEntry, name string) 
 		// lock state: callees are assumed to release what they acquire (not checked);
 		// it is exempt from frames so that locking does not have to be declared everywhere
 		return
+	}
+	if en.kind == "ghost" {
+		if g := st.eng.cs.Ghosts[strings.TrimPrefix(en.name, "ghost_")]; g != nil && g.Probe {
+			return // probes are forgotten at every call anyway
+		}
 	}
 	for _, ms := range st.modsets {
 		var alts []string
@@ -628,7 +673,7 @@ func (st *State) havocModset(ms *modSet) {
 		switch en.kind {
 		case "all":
 			st.havocAll("frame: everything")
-			return
+			// (ghost variables are not part of "everything": go on to the named ones)
 		case "fieldall":
 			// coarse: every cell of that sort may have changed
 			s := te.SortOf(en.T)
